@@ -77,11 +77,17 @@ def floors(tier):
 class World:
     """Schema + documents + the switches of its call-outs."""
 
-    def __init__(self, d, schema, store, handler_docs, instances, refs):
+    def __init__(self, d, schema, store, handler_docs, instances, refs, exotic_kinds=None):
         self.d = d
         self.schema = schema
         self.store = store
         self.handler_docs = handler_docs
+        # some instances are handed over in other container classes (defaultdict: a look-up of an absent member would
+        # insert it; OrderedDict; a list subclass) - the same JSON values, and just as untouchable
+        self.exotic_kinds = {int(k): v for k, v in (exotic_kinds or {}).items()}
+        if self.exotic_kinds:
+            from vf.gen.values import exotic
+            instances = [exotic(x, self.exotic_kinds[i]) if i in self.exotic_kinds else x for i, x in enumerate(instances)]
         self.instances = instances
         self.refs = refs                    # reference strings for direct resolver calls
         self.handler_mode = "ok"            # ok | fail | fail_once
@@ -92,7 +98,7 @@ class World:
 
     def describe(self):
         return {"draft": self.d, "schema": self.schema, "store": self.store, "handler_docs": self.handler_docs,
-                "instances": self.instances, "refs": self.refs}
+                "instances": self.instances, "refs": self.refs, "exotic_kinds": {str(k): v for k, v in self.exotic_kinds.items()}}
 
 
 def rich_world(rng, d, unresolvable=True):
@@ -223,7 +229,12 @@ def rich_world(rng, d, unresolvable=True):
     refs = ["#/definitions/leaf", "#/definitions/deep", H + "h0.json", H + "h0.json#/definitions/x", H + "h1.json",
             R.STORE_DIR + "s0.json", "#/definitions/nope", H + "missing.json", "#/definitions/deep/properties/x",
             R.STORE_DIR + "v1/item.json", R.STORE_DIR + "v2/doc.json#/definitions/item"]
-    return World(d, S, store, hdocs, insts, refs)
+    kinds = {}
+    if rng.random() < 0.5:
+        from vf.gen.values import EXOTIC_KINDS
+        for i in rng.sample(range(3), 2):
+            kinds[i] = rng.choice(("defaultdict",) + EXOTIC_KINDS)
+    return World(d, S, store, hdocs, insts, refs, exotic_kinds=kinds)
 
 
 def arranged_world(rng, d):
@@ -622,7 +633,7 @@ def replay(ctx, rec):
     impl.quiet()
     c = rec["case"]
     w = c["world"]
-    world = World(w["draft"], w["schema"], w["store"], w["handler_docs"], w["instances"], w["refs"])
+    world = World(w["draft"], w["schema"], w["store"], w["handler_docs"], w["instances"], w["refs"], w.get("exotic_kinds"))
     slog = ScopeLog()
     slog.install()
     try:
